@@ -1,4 +1,4 @@
-import BB.Proofs.MirroredGet
+import BB.Proofs.MirroredRun
 /-!
 # C11 - mirrored storage: writes reach both replicas, reads repair, errors are not masked
 
@@ -6,6 +6,20 @@ All statements are about the executable model `BB.Mirrored` (the definitions the
 driver `bbmodel_c11` runs).  They hold for every state of the pair (every
 placement of every object, every value of the round counter, hence after every
 history), every fault script, every scheduling preference.
+
+Two things the code does that the English statement of C11 glosses over, and
+which the theorems state as they are:
+
+* Repair is the replicator's job. With the `noop` replicator a read from the
+  second replica succeeds without copying, and `FindMissing` does not exchange
+  objects; the "afterwards the replica holds it" conclusions therefore carry
+  the hypothesis `c.toward _ = .local` / `c.ab = .local` / `c.ba = .local`.
+* A failure inside the second stage of a read is reported under the name of the
+  replica the replicator reads *from*: if the repair write into the replica
+  consulted first fails, the error is "Backend <other>: Replication failed:
+  ..." (`C11_get_error_named`, third case). The error is surfaced with its
+  code and never turned into NOT_FOUND or a success; only the name is that of
+  the replication's source rather than of the replica whose `Put` failed.
 -/
 namespace BB.C11
 open BB.Mirrored
@@ -188,5 +202,384 @@ theorem C11_get_not_found (c : Cfg) (p : Pair) (k : Key) (e : Err)
     (hput : (p.rep (firstSide p)).faultAt .put ≠ some nf) :
     saidNF p (firstSide p) k ∧ saidNF p (firstSide p).other k ∧ e.tags = [] :=
   get_nf_cases c p k e h hc hput
+
+/-! ## FindMissing -/
+
+/-- **C11_find_missing_exact.** Whatever faults were scripted: if the existence
+check succeeds on a digest set (sorted, as `digest.Set` is), then it reports
+exactly the objects missing from both replicas, and with the `local` replicator
+each replica afterwards holds every queried object that at least one of them
+held (its own copy if it had one, the other's otherwise); objects that were not
+queried are untouched. A success is never a partial answer. -/
+theorem C11_find_missing_exact (c : Cfg) (p : Pair) (ks : List Key) (pref1 pref2 : Side) (l : List Key)
+    (hs : ks.Pairwise (· < ·)) (h : (findMissing c p ks pref1 pref2).2 = .ok l) :
+    (∀ z, z ∈ l ↔ z ∈ ks ∧ (p.rep .A).store z = none ∧ (p.rep .B).store z = none) ∧
+    (c.ab = .local → ∀ z ∈ ks, ((findMissing c p ks pref1 pref2).1.rep .B).store z =
+      match (p.rep .B).store z with
+      | some v => some v
+      | none => (p.rep .A).store z) ∧
+    (c.ba = .local → ∀ z ∈ ks, ((findMissing c p ks pref1 pref2).1.rep .A).store z =
+      match (p.rep .A).store z with
+      | some v => some v
+      | none => (p.rep .B).store z) ∧
+    (∀ z, z ∉ ks → ∀ t, ((findMissing c p ks pref1 pref2).1.rep t).store z = (p.rep t).store z) := by
+  obtain ⟨_, _, he⟩ := findMissing_ok c p ks pref1 pref2 l h
+  rw [he] at h ⊢
+  obtain ⟨hl, _, _⟩ := syncPhase_ok _ _ _ _ _ _ h
+  obtain ⟨sB, sA, _⟩ := syncPhase_ok_stores _ _ _ _ _ _ h
+  simp only [afterFm_store] at sA sB
+  refine ⟨fun z => by rw [hl]; exact mem_both p ks hs z, ?_, ?_, ?_⟩
+  · intro hab z hz
+    rw [sB z]
+    simp only [hab, true_and, mem_onlyB p ks hs z, hz]
+    cases hA : (p.rep .A).store z <;> cases hB : (p.rep .B).store z <;> simp
+  · intro hba z hz
+    rw [sA z]
+    simp only [hba, true_and, mem_onlyA p ks hs z, mem_onlyB p ks hs z, hz]
+    cases hA : (p.rep .A).store z <;> cases hB : (p.rep .B).store z <;> simp
+  · intro z hz t
+    have h1 : z ∉ (diffInter (miss p .A ks) (miss p .B ks)).1 :=
+      fun hm => hz ((mem_miss p .A ks z).1 ((diffInter_sub _ _).1 z hm)).1
+    have h2 : z ∉ (diffInter (miss p .A ks) (miss p .B ks)).2.2 :=
+      fun hm => hz ((mem_miss p .B ks z).1 ((diffInter_sub _ _).2.2 z hm)).1
+    cases t
+    · rw [sA z]; simp [h1]
+    · rw [sB z]; simp [h2]
+
+/-- No fault fires: the existence check succeeds (so the statement above is not vacuous). -/
+theorem C11_find_missing_succeeds (c : Cfg) (p : Pair) (ks : List Key) (pref1 pref2 : Side)
+    (hs : ks.Pairwise (· < ·)) (hq : Quiet p) : ∃ l, (findMissing c p ks pref1 pref2).2 = .ok l :=
+  ⟨_, findMissing_quiet c p ks pref1 pref2 hs hq⟩
+
+/-- A failed existence check: either one of the two `FindMissing` calls failed
+and the error is that failure under that replica's name, or the replication
+failed and the error says in which direction ("Failed to synchronize from
+backend X ...", a call did fail) or which replica contradicted itself
+("Backend X returned inconsistent results", INTERNAL). -/
+theorem C11_find_missing_error_named (c : Cfg) (p : Pair) (ks : List Key) (pref1 pref2 : Side) (e : Err)
+    (h : (findMissing c p ks pref1 pref2).2 = .error e) :
+    (∃ s, e = ⟨e.code, [.backend s], .fault s .fm ((p.rep s).cnt .fm)⟩ ∧ (p.rep s).faultAt .fm = some e.code) ∨
+    SyncNamed p ks e :=
+  findMissing_error c p ks pref1 pref2 e h
+
+/-- The existence check never changes an object a replica already holds, and never removes one. -/
+theorem C11_find_missing_keeps (c : Cfg) (p : Pair) (ks : List Key) (pref1 pref2 : Side) (t : Side) (z : Key)
+    (h : (p.rep t).store z ≠ none) : ((findMissing c p ks pref1 pref2).1.rep t).store z ≠ none :=
+  findMissing_present c p ks pref1 pref2 t z h
+
+/-! ## GetFromComposite -/
+
+/-- No fault fires and a replica holds the parent: the composite read returns
+it (the first replica's copy if it has one), and afterwards the replica
+consulted first holds it (`local` replicator). -/
+theorem C11_getc_available (c : Cfg) (p : Pair) (k : Key) (hq : Quiet p)
+    (h : ∃ s, (p.rep s).store k ≠ none) :
+    ∃ v, (getc c p k).2 = .ok v ∧
+      (p.holds (firstSide p) k v ∨ ((p.rep (firstSide p)).store k = none ∧ p.holds (firstSide p).other k v)) ∧
+      (c.toward (firstSide p) = .local → (getc c p k).1.holds (firstSide p) k v) := by
+  unfold Pair.holds
+  cases h1 : (p.rep (firstSide p)).store k with
+  | some v =>
+    refine ⟨v, ?_, Or.inl rfl, fun _ => ?_⟩
+    · rw [getc_snd]; simp [hq.faultAt, h1]
+    · rw [getc_store]; simp [firstNFc, hq.faultAt, h1]
+  | none =>
+    cases h2 : (p.rep (firstSide p).other).store k with
+    | some v =>
+      refine ⟨v, ?_, Or.inr ⟨rfl, rfl⟩, fun hl => ?_⟩
+      · rw [getc_snd]
+        cases hst : c.toward (firstSide p) <;> simp [hq.faultAt, h1, stage2c, h2, hq.faultNext]
+      · rw [getc_store]; simp [firstNFc, hq.faultAt, h1, stage2cWrite, hl, h2]
+    | none =>
+      exfalso
+      obtain ⟨s, hs⟩ := h
+      rcases Side.eq_or_other (firstSide p) s with e | e <;> subst e <;> simp_all
+
+/-- Whatever faults fire: a composite read that succeeds returns a value a
+replica held, and if it came from the second replica the first one holds it
+afterwards (`local` replicator). -/
+theorem C11_getc_sound (c : Cfg) (p : Pair) (k : Key) (v : Val) (h : (getc c p k).2 = .ok v) :
+    p.holds (firstSide p) k v ∨
+    (saidNFc p (firstSide p) k ∧ p.holds (firstSide p).other k v ∧
+      (c.toward (firstSide p) = .local → (getc c p k).1.holds (firstSide p) k v)) := by
+  rcases getc_ok_cases c p k v h with ⟨_, h1⟩ | ⟨h1, h2, h3⟩
+  · exact Or.inl h1
+  · refine Or.inr ⟨h1, h2, fun hl => ?_⟩
+    unfold Pair.holds
+    rw [getc_store]
+    simp [(firstNFc_iff p k).2 h1, stage2cWrite, h2, hl, (h3 hl).1, (h3 hl).2]
+
+/-! ## Errors are named, never NOT_FOUND, never a success -/
+
+/-- The outermost prefix of the error names a replica: "Backend X", "Failed to
+synchronize from backend X to backend Y", or "Backend X returned inconsistent
+results while synchronizing". -/
+def Named (e : Err) : Prop :=
+  ∃ s, e.tags.head? = some (.backend s) ∨ e.tags.head? = some (.sync s) ∨ e.tags.head? = some (.incons s)
+
+theorem fromFault_of_faultAt {p : Pair} {e : Err} {s : Side} {m : Meth}
+    (ho : e.origin = .fault s m ((p.rep s).cnt m)) (hf : (p.rep s).faultAt m = some e.code) : e.fromFault p := by
+  unfold Err.fromFault
+  rw [ho]
+  exact ⟨Nat.le_refl _, e.code, hf, Or.inl rfl⟩
+
+/-- **C11_errors_named.** Whatever the operation, the state and the fault
+script: a reply that is an error with a code other than NOT_FOUND carries a
+replica's name as its outermost prefix, and it stems from a call of this
+operation that the script made fail (with that code; INTERNAL where the
+script's NOT_FOUND contradicts what the replica said before) - or it is the
+INTERNAL "inconsistent results" error about a replica that lacks an object it
+did not report missing. -/
+theorem C11_errors_named (c : Cfg) (p : Pair) (o : Op) (e : Err)
+    (h : (step c p o).2 = .err e) (hne : e.code ≠ nf) :
+    Named e ∧ (e.fromFault p ∨
+      (e.code = internal ∧ ∃ s k, e.tags.head? = some (.incons s) ∧ e.origin = .absent s k ∧ (p.rep s).store k = none)) := by
+  cases o with
+  | get k =>
+    have h' : (get c p k).2 = .error e := by
+      simp only [step] at h; cases hr : (get c p k).2 <;> simp_all [ofVal]
+    rcases C11_get_error_named c p k e h' hne with ⟨he, hf⟩ | ⟨_, he, hf⟩ | ⟨_, _, he, hf, _⟩
+    · exact ⟨⟨firstSide p, Or.inl (by rw [he] <;> rfl)⟩, Or.inl (fromFault_of_faultAt (by rw [he] <;> rfl) hf)⟩
+    · exact ⟨⟨(firstSide p).other, Or.inl (by rw [he] <;> rfl)⟩, Or.inl (fromFault_of_faultAt (by rw [he] <;> rfl) hf)⟩
+    · exact ⟨⟨(firstSide p).other, Or.inl (by rw [he] <;> rfl)⟩, Or.inl (fromFault_of_faultAt (by rw [he] <;> rfl) hf)⟩
+  | getc k =>
+    have h' : (getc c p k).2 = .error e := by
+      simp only [step] at h; cases hr : (getc c p k).2 <;> simp_all [ofVal]
+    obtain ⟨hn, hf⟩ := getc_error_cases c p k e h' hne
+    exact ⟨by rcases hn with hn | hn <;> exact ⟨_, Or.inl hn⟩, Or.inl hf⟩
+  | put k v pref =>
+    have h' : (put p k v pref).2 = .error e := by
+      simp only [step] at h; cases hr : (put p k v pref).2 <;> simp_all [ofUnit]
+    obtain ⟨s, hf, he⟩ := C11_put_error_named p k v pref e h'
+    exact ⟨⟨s, Or.inl (by rw [he] <;> rfl)⟩, Or.inl (fromFault_of_faultAt (by rw [he] <;> rfl) hf)⟩
+  | fm ks a b =>
+    have h' : (findMissing c p ks a b).2 = .error e := by
+      simp only [step] at h; cases hr : (findMissing c p ks a b).2 <;> simp_all [ofList]
+    rcases C11_find_missing_error_named c p ks a b e h' with ⟨s, he, hf⟩ | ⟨src, k, _, hs | hs⟩
+    · exact ⟨⟨s, Or.inl (by rw [he] <;> rfl)⟩, Or.inl (fromFault_of_faultAt (by rw [he] <;> rfl) hf)⟩
+    · exact ⟨⟨src, Or.inr (Or.inl (by rw [hs.1]; rfl))⟩, Or.inl hs.2.2⟩
+    · refine ⟨⟨src, Or.inr (Or.inr (by rw [hs.1]; rfl))⟩, ?_⟩
+      rcases hs.2.2 with hf | ⟨ho, hst⟩
+      · exact Or.inl hf
+      · exact Or.inr ⟨hs.2.1, src, k, by rw [hs.1]; rfl, ho, hst⟩
+  | caps =>
+    have h' : (caps p).2 = .error e := by
+      simp only [step] at h; cases hr : (caps p).2 <;> simp_all [ofUnit]
+    rw [caps_snd] at h'
+    cases hf : (p.rep (firstSide p)).faultAt .caps with
+    | none => simp [hf] at h'
+    | some cc =>
+      simp only [hf] at h'
+      injection h' with h'
+      subst h'
+      exact ⟨⟨firstSide p, Or.inl rfl⟩, Or.inl (fromFault_of_faultAt rfl hf)⟩
+
+/-- No `Put`, `FindMissing` or `GetCapabilities` call is scripted to fail with the code NOT_FOUND. -/
+def NoNFWrites (p : Pair) : Prop :=
+  ∀ s m, (m = .put ∨ m = .fm ∨ m = .caps) → (p.rep s).faultAt m ≠ some nf
+
+/-- **Never NOT_FOUND unless both replicas say so.** A reply with code
+NOT_FOUND comes only from a read, and then both replicas answered NOT_FOUND
+for that object (each lacks it, or was scripted to deny it). -/
+theorem C11_not_found_only_absent (c : Cfg) (p : Pair) (o : Op) (e : Err)
+    (h : (step c p o).2 = .err e) (hc : e.code = nf) (hw : NoNFWrites p) :
+    (∃ k, o = .get k ∧ saidNF p (firstSide p) k ∧ saidNF p (firstSide p).other k) ∨
+    (∃ k, o = .getc k ∧ saidNFc p (firstSide p) k ∧
+      (c.toward (firstSide p) = .noop → saidNFc p (firstSide p).other k) ∧
+      (c.toward (firstSide p) = .local → saidNF p (firstSide p).other k)) := by
+  cases o with
+  | get k =>
+    have h' : (get c p k).2 = .error e := by
+      simp only [step] at h; cases hr : (get c p k).2 <;> simp_all [ofVal]
+    obtain ⟨h1, h2, _⟩ := C11_get_not_found c p k e h' hc (hw _ .put (Or.inl rfl))
+    exact Or.inl ⟨k, rfl, h1, h2⟩
+  | getc k =>
+    have h' : (getc c p k).2 = .error e := by
+      simp only [step] at h; cases hr : (getc c p k).2 <;> simp_all [ofVal]
+    obtain ⟨h1, h2, h3, _⟩ := getc_nf_cases c p k e h' hc (hw _ .put (Or.inl rfl))
+    exact Or.inr ⟨k, rfl, h1, h2, h3⟩
+  | put k v pref =>
+    exfalso
+    have h' : (put p k v pref).2 = .error e := by
+      simp only [step] at h; cases hr : (put p k v pref).2 <;> simp_all [ofUnit]
+    obtain ⟨s, hf, _⟩ := C11_put_error_named p k v pref e h'
+    exact hw s .put (Or.inl rfl) (by rw [hf, hc])
+  | fm ks a b =>
+    exfalso
+    have h' : (findMissing c p ks a b).2 = .error e := by
+      simp only [step] at h; cases hr : (findMissing c p ks a b).2 <;> simp_all [ofList]
+    rcases C11_find_missing_error_named c p ks a b e h' with ⟨s, _, hf⟩ | ⟨src, k, _, hs | hs⟩
+    · exact hw s .fm (Or.inr (Or.inl rfl)) (by rw [hf, hc])
+    · exact hs.2.1 hc
+    · rw [hs.2.1] at hc; exact absurd hc (by decide)
+  | caps =>
+    exfalso
+    have h' : (caps p).2 = .error e := by
+      simp only [step] at h; cases hr : (caps p).2 <;> simp_all [ofUnit]
+    rw [caps_snd] at h'
+    cases hf : (p.rep (firstSide p)).faultAt .caps with
+    | none => simp [hf] at h'
+    | some cc =>
+      simp only [hf] at h'
+      injection h' with h'
+      subst h'
+      exact hw _ .caps (Or.inr (Or.inr rfl)) (by rw [hf]; exact congrArg some hc)
+
+/-! ## Alternation -/
+
+theorem firstSide_succ (p : Pair) (q : Pair) (h : q.round = p.round + 1) : firstSide q = (firstSide p).other := by
+  unfold firstSide
+  rw [h]
+  have := Nat.mod_two_eq_zero_or_one (p.round + 1)
+  rcases this with h0 | h1
+  · have : (p.round + 1 + 1) % 2 = 1 := by omega
+    simp [h0, this, Side.other]
+  · have : (p.round + 1 + 1) % 2 = 0 := by omega
+    simp [h1, this, Side.other]
+
+/-- **C11_alternation.** `Get`, `GetFromComposite` and `GetCapabilities` consult
+the replica `firstSide` first and flip it for the next such call; `Put` and
+`FindMissing` do not touch it. -/
+theorem C11_alternation (c : Cfg) (p : Pair) (o : Op) :
+    firstSide (step c p o).1 = if o.rounds then (firstSide p).other else firstSide p := by
+  have hr := step_round c p o
+  cases ho : o.rounds
+  · simp only [ho] at hr ⊢
+    unfold firstSide; rw [hr]; rfl
+  · simp only [ho, if_true] at hr ⊢
+    exact firstSide_succ p _ hr
+
+/-- The replica named `firstSide` is really the one consulted first: a read
+calls `Get` exactly once on it, and - when it holds the object and no fault
+fires - calls nothing at all on the other replica. -/
+theorem C11_first_consulted (c : Cfg) (p : Pair) (k : Key) :
+    ((get c p k).1.rep (firstSide p)).cnt .get = (p.rep (firstSide p)).cnt .get + 1 ∧
+    (firstNF p k = false → ∀ m, ((get c p k).1.rep (firstSide p).other).cnt m = (p.rep (firstSide p).other).cnt m) := by
+  constructor
+  · rw [get_fst]; simp only []
+    split
+    · rw [finish2_fst]
+      cases c.toward (firstSide p) with
+      | noop =>
+        show ((getOn _ _ _).1.rep _).cnt .get = _
+        rw [getOn_fst]; simp
+      | «local» =>
+        rw [replSingle_fst_local, putOn_fst, rep_setRep_same, putRep_cnt, getOn_fst]
+        simp [cnt_bump]
+    · simp
+  · intro h m; rw [get_fst]; simp [h]
+
+/-- Over a whole history: the replica consulted first by the next read is A
+exactly when the number of round-consuming calls so far (plus the initial
+round) is even. -/
+theorem C11_alternation_history (c : Cfg) (p : Pair) (os : List Op) :
+    firstSide (run c p os).1 = if (p.round + (os.filter Op.rounds).length) % 2 = 0 then .A else .B := by
+  unfold firstSide
+  rw [run_round]
+  have := Nat.mod_two_eq_zero_or_one (p.round + (os.filter Op.rounds).length)
+  rcases this with h0 | h1
+  · have : (p.round + (os.filter Op.rounds).length + 1) % 2 = 1 := by omega
+    simp [h0, this]
+  · have : (p.round + (os.filter Op.rounds).length + 1) % 2 = 0 := by omega
+    simp [h1, this]
+
+/-! ## Histories -/
+
+/-- Through the composite no object ever vanishes from a replica, whatever the
+history, the fault script and the scheduling. -/
+theorem C11_history_keeps (c : Cfg) (p : Pair) (os : List Op) (t : Side) (z : Key)
+    (h : (p.rep t).store z ≠ none) : ((run c p os).1.rep t).store z ≠ none :=
+  run_present c p os t z h
+
+/-- Every reply of every history obeys `C11_errors_named`. -/
+theorem C11_history_errors_named (c : Cfg) (p : Pair) (os : List Op) :
+    ∀ r ∈ (run c p os).2, ∀ e, r = .err e → e.code ≠ nf → Named e := by
+  induction os generalizing p with
+  | nil => intro r hr; simp [run] at hr
+  | cons o os ih =>
+    intro r hr e he hne
+    rw [run_cons] at hr
+    rcases List.mem_cons.1 hr with h | h
+    · exact (C11_errors_named c p o e (by rw [← he, h]) hne).1
+    · exact ih _ r h e he hne
+
+/-- After any fault-free history, an object that some replica held at the start
+can still be read, and (with `local` replicators) the replica consulted first
+holds it afterwards. -/
+theorem C11_history_available (c : Cfg) (p : Pair) (os : List Op) (k : Key) (hq : Quiet p)
+    (h : ∃ s, (p.rep s).store k ≠ none) :
+    ∃ v, (get c (run c p os).1 k).2 = .ok v ∧
+      (c.toward (firstSide (run c p os).1) = .local →
+        (get c (run c p os).1 k).1.holds (firstSide (run c p os).1) k v) := by
+  obtain ⟨s, hs⟩ := h
+  obtain ⟨v, h1, _, h3⟩ := C11_get_available c (run c p os).1 k (hq.adv (run_adv c p os))
+    ⟨s, run_present c p os s k hs⟩
+  exact ⟨v, h1, h3⟩
+
+/-- A successful upload anywhere in a history is present in both replicas for
+the rest of the history. -/
+theorem C11_history_put (c : Cfg) (p : Pair) (os1 os2 : List Op) (k : Key) (v : Val) (pref : Side)
+    (h : (put (run c p os1).1 k v pref).2 = .ok ()) :
+    ∀ t, ((run c (put (run c p os1).1 k v pref).1 os2).1.rep t).store k ≠ none := by
+  intro t
+  apply run_present
+  have := C11_put_both (run c p os1).1 k v pref h
+  cases t
+  · rw [show ((put (run c p os1).1 k v pref).1.rep .A).store k = some v from this.1]; simp
+  · rw [show ((put (run c p os1).1 k v pref).1.rep .B).store k = some v from this.2]; simp
+
+/-! ## Concrete instances (the hypotheses of the theorems are satisfiable) -/
+
+/-- A holds 1 ↦ 10, B holds 2 ↦ 20 and 1 ↦ 10 is missing there; nobody holds 3. -/
+def exStore : Side → Key → Option Val
+  | .A, 1 => some 10
+  | .B, 2 => some 20
+  | _, _ => none
+
+/-- No faults. -/
+def exQuiet : Pair := ⟨fun s => ⟨exStore s, fun _ _ => none, fun _ => 0⟩, 0⟩
+
+/-- A's first `Put` fails with UNAVAILABLE, B's first `Get` with INTERNAL, B's second `Get` denies (NOT_FOUND). -/
+def exScript : Side → Meth → Nat → Option Code
+  | .A, .put, 0 => some 14
+  | .B, .get, 0 => some 13
+  | .B, .get, 1 => some 5
+  | _, _, _ => none
+
+def exFaulty : Pair := ⟨fun s => ⟨exStore s, exScript s, fun _ => 0⟩, 0⟩
+
+def exCfg : Cfg := ⟨.local, .local⟩
+
+theorem exQuiet_quiet : Quiet exQuiet := fun _ _ _ _ => rfl
+
+attribute [local simp] findMissing fmOn Replica.faultAt exQuiet exFaulty exStore exScript exCfg Pair.setRep Replica.bump
+  diffInter replMultiple localMultiple getOn getcOn putOn capsOn join2 syncErr Replica.write Mirrored.get getc put caps step run
+  replSingle replComposite finish2 nfToInternal firstSide Cfg.toward Side.other wrapRes Err.wrap Err.wrapCode
+  ofVal ofUnit ofList Pair.holds nf internal
+
+example : (put exQuiet 3 30 .A).2 = .ok () := rfl
+example : (put exFaulty 3 30 .A).2 = .error ⟨14, [.backend .A], .fault .A .put 0⟩ := rfl
+example : (put exFaulty 3 30 .A).1.holds .B 3 30 := rfl
+-- round 0: A is consulted first; 2 is only in B: read repair
+example : (get exCfg exQuiet 2).2 = .ok 20 ∧ (get exCfg exQuiet 2).1.holds .A 2 20 := ⟨rfl, rfl⟩
+example : ∃ s, (exQuiet.rep s).store 2 ≠ none := ⟨.B, by simp [exQuiet, exStore]⟩
+example : (get exCfg exQuiet 3).2 = .error ⟨nf, [], .absent .B 3⟩ := rfl
+-- B's Get fails: named, not NOT_FOUND although A said NOT_FOUND
+example : (get exCfg exFaulty 2).2 = .error ⟨13, [.backend .B], .fault .B .get 0⟩ := rfl
+-- the repair write fails
+-- B denies holding 1 (scripted NOT_FOUND): A is asked and B is repaired
+example : (get exCfg (get exCfg exFaulty 2).1 1).2 = .ok 10 := rfl
+-- both say NOT_FOUND (B by script): NOT_FOUND, unwrapped
+example : (get exCfg (get exCfg exFaulty 2).1 3).2 = .error ⟨5, [], .absent .A 3⟩ := rfl
+example : (findMissing exCfg exQuiet [1, 2, 3] .A .A).2 = .ok [3] := by simp
+example : ((findMissing exCfg exQuiet [1, 2, 3] .A .A).1.rep .B).store 1 = some 10 := by simp
+example : ((findMissing exCfg exQuiet [1, 2, 3] .A .A).1.rep .A).store 2 = some 20 := by simp
+example : ([1, 2, 3] : List Key).Pairwise (· < ·) := by decide
+-- replication B→A of object 2 hits B's failing Get; A→B of object 1 hits nothing
+example : (findMissing exCfg exFaulty [1, 2, 3] .A .A).2 =
+    .error ⟨14, [.sync .B, .dig 2], .fault .A .put 0⟩ := by simp
+example : (getc exCfg exQuiet 2).2 = .ok 20 ∧ (getc exCfg exQuiet 2).1.holds .A 2 20 := ⟨rfl, rfl⟩
+example : (run exCfg exQuiet [.get 2, .caps, .get 1, .fm [1, 2, 3] .A .A, .get 3]).2 =
+    [.val 20, .unit, .val 10, .missing [3], .err ⟨nf, [], .absent .A 3⟩] := by simp
 
 end BB.C11
